@@ -125,7 +125,7 @@ Fixpoint close_loop (fuel : nat) (todo : list kstate) (seen : seen_t) (quies : l
       end
   end.
 
-Definition FUEL : nat := 4000.   (* more does not pay: the seen-set is a list, exploration is quadratic; exhausted = inconclusive *)
+Definition FUEL : nat := 3000.   (* more does not pay: the seen-set is a list, exploration is quadratic; exhausted = inconclusive *)
 
 Definition closure (l : list state) : list kstate * bool :=
   let '(todo, seen) := add_all (map mk l) [] [] in close_loop FUEL todo seen [].
@@ -207,18 +207,30 @@ Fixpoint run (l : list state) (ms : list (move * outcome)) : bool * bool :=
 Definition accepts_from (ms : list (move * outcome)) : bool * bool :=
   let '(q, ok) := closure [init c] in
   let '(a, ok') := run (map snd q) ms in (a, ok && ok').
+(* the context was cancelled BEFORE the stage was created (the trace starts with that cancel): no goroutine
+   has taken a step yet when the flag goes up *)
+Definition accepts_from_pre (ms : list (move * outcome)) : bool * bool :=
+  match ms with
+  | (MCancel, ODone) :: r =>
+      match step c (init c) ECancel with
+      | Some s0 => let '(q, ok) := closure [s0] in
+                   if negb ok then (false, false) else let '(a, ok') := run (map snd q) r in (a, ok && ok')
+      | None => (false, true)
+      end
+  | _ => accepts_from ms
+  end.
 End Accept.
 
 (* (a run of the model producing the trace was found, the exploration of the internal steps was complete).
    A found run is a run, complete exploration or not; a trace is REJECTED only when the complete exploration finds
    none; when the fuel of an exploration runs out before a run is found the case is INCONCLUSIVE (counted in the
    digest, neither a mismatch nor a confirmation) *)
-Definition verdict (p : pcase) : bool * bool :=
+Definition verdict (pre : bool) (p : pcase) : bool * bool :=
   let sym := match stage p with SFork _ _ _ => true | _ => false end in
-  accepts_from sym (length (icaps p)) (nouts_of p) (cfg_of_case p) (moves p).
-Definition accepts (p : pcase) : bool := fst (verdict p).
-Definition rejects (p : pcase) : bool := let '(a, ok) := verdict p in negb a && ok.
-Definition inconclusive (p : pcase) : bool := let '(a, ok) := verdict p in negb a && negb ok.
+  (if pre then accepts_from_pre else accepts_from) sym (length (icaps p)) (nouts_of p) (cfg_of_case p) (moves p).
+Definition accepts (p : pcase) : bool := fst (verdict false p).
+Definition rejects (pre : bool) (p : pcase) : bool := let '(a, ok) := verdict pre p in negb a && ok.
+Definition inconclusive (pre : bool) (p : pcase) : bool := let '(a, ok) := verdict pre p in negb a && negb ok.
 
 (* ---------- what the observations say (used by the property oracles) ---------- *)
 Definition sent_on (i : nat) (ms : list (move * outcome)) : list Z :=
@@ -244,9 +256,9 @@ Fixpoint is_prefix (a b : list Z) : bool :=
 
 (* a case of the Pool family: the trace, the user-function calls in invocation order, whether the
    harness process crashed in this case (library panic / goroutines that never exit), and how the
-   schedule was produced (0 random, 1 consumer keeps up, 2 idle then burst, 3 absent consumer, 4 enumerated, 5 steady, 9 free-running pseudo-trace) *)
+   schedule was produced (0 random, 1 consumer keeps up, 2 idle then burst, 3 absent consumer, 4 enumerated, 5 steady, 6 context cancelled before the stage was created, 9 free-running pseudo-trace) *)
 Record case := mkC { pc : pcase; calls : list Z; crashed : bool; sched : N; ctimes : list N (* virtual time of each user-function call *) }.
 
 (* free-running cases (sched = 9) are pseudo-traces of complete runs: only the oracle judges them *)
 Definition mismatches (cs : list case) : list N :=
-  idx_where (fun c => if N.eqb (sched c) 9 then crashed c else rejects (pc c) || crashed c) 0%N cs.
+  idx_where (fun c => if N.eqb (sched c) 9 then crashed c else rejects (N.eqb (sched c) 6) (pc c) || crashed c) 0%N cs.
